@@ -43,6 +43,18 @@ TShapes(i) ==
     TShape("payload", Nil, Some(20 + i), Some(0 - 60), Nil, Nil),                     \* a negative MediaTime: the sums are sums
     TShape("payload", Some(0 - 10), Nil, Nil, Nil, Nil) }
 
+(* running orders of three and more stories use a reduced set of shapes     *)
+TShapesSmall(i) ==
+  { TShape("none", Nil, Nil, Nil, Nil, Nil),
+    TShape("payload", Nil, Nil, Nil, Nil, Nil),
+    TShape("payload", Some(20 + i), Nil, Nil, Nil, Nil),
+    TShape("payload", Nil, Some(12 + 4*i), Nil, Nil, Nil),
+    TShape("payload", Nil, Some(12 + i), Some(10), Nil, Nil),
+    TShape("payload", Some(24), Nil, Nil, Some(Zone(1) + 4000 + 40*i), Nil),
+    TShape("payload", Some(24), Nil, Nil, Nil, Some(8000 + 40*i)),
+    TShape("payload", Nil, Some(20 + i), Some(0 - 60), Nil, Nil) }
+ShapesFor(n, j) == IF n <= 2 THEN TShapes(j) ELSE TShapesSmall(j)
+
 ItemView(id, full) ==
   [id |-> id, slug |-> "slug " \o id,
    type |-> IF full THEN "VIDEO" ELSE NoneS, object_id |-> IF full THEN "obj." \o id ELSE NoneS,
@@ -68,7 +80,7 @@ DefaultBody(i) == << P(<<72, 105, 32>> \o <<48 + i>>), It("I1"), P(<<40, 110, 11
 TimingViews ==
   UNION { UNION { { [edstart |-> ed, exact |-> TRUE,
                      stories |-> [i \in 1..n |-> StoryV(IF i = blank THEN NoneS ELSE SId(i), f[i], DefaultBody(i))]]
-                      : f \in { g \in [1..n -> UNION { TShapes(j) : j \in 1..n }] : \A i \in 1..n : g[i] \in TShapes(i) } }
+                      : f \in { g \in [1..n -> UNION { ShapesFor(n, j) : j \in 1..n }] : \A i \in 1..n : g[i] \in ShapesFor(n, i) } }
                   : ed \in {Nil, Some(T0), Some(Zone(1) + T0)}, blank \in 0..n }
           : n \in 0..MaxN }
 
